@@ -263,42 +263,70 @@ pub fn cut_unit(ctx: &Ctx, rng: &mut Rng, o: &mut Out) {
       o.op("cut_shape", json!({"t": tid, "node": ids.of(n), "holes": holes_json}), real.clone());
       // the theorem's hypotheses (NoMissing / HolesOK), evaluated by the model driver: measured
       o.op("info:holes_ok", json!({"t": tid, "node": ids.of(n), "holes": holes_json}), Value::Null);
-      for (sname, mk) in STRICT {
-        let p = pat.clone().with_strictness(mk());
-        let r = run_match(&p, n, &ids);
-        o.op("match", json!({"t": tid, "node": ids.of(n), "p": real, "s": sname}), r.clone());
-        // oracle (C02): must match, every hole bound to a node with exactly the hole's byte range
-        // (single) / exactly the run of siblings (ellipsis)
-        oracle_cases += 1;
-        let mut ok = r["m"] == json!(true);
-        let mut why = String::new();
-        if !ok {
-          why = "no match".into();
-        } else {
-          for h in &holes {
-            match h.run {
-              None => {
-                let bound = r["env"]["s"][&h.name].as_u64();
-                let good = bound.map(|id| {
-                  let nd = root.dfs().find(|d| ids.of(d) == id as usize).unwrap();
-                  nd.range().start == h.start && nd.range().end == h.end
-                });
-                if good != Some(true) {
-                  ok = false;
-                  why = format!("hole {} bound to {:?}", h.name, bound);
-                }
+      // oracle (C02): must match, every hole bound to a node with exactly the hole's byte range
+      // (single) / exactly the run of siblings (ellipsis)
+      let verdict = |r: &Value| -> (bool, String) {
+        if r["m"] != json!(true) {
+          return (false, "no match".into());
+        }
+        for h in &holes {
+          match h.run {
+            None => {
+              let bound = r["env"]["s"][&h.name].as_u64();
+              let good = bound.map(|id| {
+                let nd = root.dfs().find(|d| ids.of(d) == id as usize).unwrap();
+                nd.range().start == h.start && nd.range().end == h.end
+              });
+              if good != Some(true) {
+                return (false, format!("hole {} bound to {:?}", h.name, bound));
               }
-              Some((pid, a, b)) => {
-                let p = root.dfs().find(|d| ids.of(d) == pid).unwrap();
-                let expect: Vec<usize> = p.children().enumerate().filter(|(i, _)| *i >= a && *i <= b).map(|(_, c)| ids.of(&c)).collect();
-                if r["env"]["m"][&h.name] != json!(expect) {
-                  ok = false;
-                  why = format!("ellipsis {} bound to {} expected {:?}", h.name, r["env"]["m"][&h.name], expect);
-                }
+            }
+            Some((pid, a, b)) => {
+              let p = root.dfs().find(|d| ids.of(d) == pid).unwrap();
+              let expect: Vec<usize> = p.children().enumerate().filter(|(i, _)| *i >= a && *i <= b).map(|(_, c)| ids.of(&c)).collect();
+              if r["env"]["m"][&h.name] != json!(expect) {
+                return (false, format!("ellipsis {} bound to {} expected {:?}", h.name, r["env"]["m"][&h.name], expect));
               }
             }
           }
         }
+        (true, String::new())
+      };
+      // the same cut written as a CONTEXTUAL pattern (`context` = the holed text, `selector` = the
+      // kind of the node): where the selector denotes the cut node itself (judged on the hole-free
+      // text, so that nothing about holes enters the guard) the pattern must match the node too
+      if !deep && k % 3 == 1 {
+        let kind = n.kind().to_string();
+        let plain = n.text().to_string();
+        if let (Ok(c0), Ok(t0)) = (Pattern::contextual(&plain, &kind, src.lang), Pattern::try_new(&plain, src.lang)) {
+          if treedump::dump_pattern(&c0.node) == treedump::dump_pattern(&t0.node) {
+            oracle_cases += 1;
+            let (ok, why, r) = match Pattern::contextual(&text, &kind, src.lang) {
+              Ok(cp) => {
+                let r = run_match(&cp, n, &ids);
+                let (ok, why) = verdict(&r);
+                (ok, why, r)
+              }
+              Err(e) => (false, format!("contextual pattern does not build: {e}"), Value::Null),
+            };
+            if !ok {
+              o.oracle(
+                "cut-matches",
+                false,
+                json!({"fp": format!("cut-matches contextual pattern (selector = kind of the cut node) run={}", holes.iter().any(|h| h.run.is_some())),
+                       "lang": src.lang.to_string(), "file": src.name, "node_range": [n.range().start, n.range().end],
+                       "pattern": text, "selector": kind, "why": why, "result": r}),
+              );
+            }
+          }
+        }
+      }
+      for (sname, mk) in STRICT {
+        let p = pat.clone().with_strictness(mk());
+        let r = run_match(&p, n, &ids);
+        o.op("match", json!({"t": tid, "node": ids.of(n), "p": real, "s": sname}), r.clone());
+        oracle_cases += 1;
+        let (ok, why) = verdict(&r);
         if !ok {
           o.oracle(
             "cut-matches",
@@ -333,6 +361,7 @@ fn struct_identical(a: &N, b: &N) -> bool {
 
 /// C03: near misses — patterns cut from one node, tried on other nodes of the same file
 pub fn near_miss_unit(ctx: &Ctx, rng: &mut Rng, o: &mut Out) {
+  yaml_strictness(o);
   let sources = corpus::load();
   let variants = if ctx.thorough { 6 } else { 2 };
   let pats_per_src = if ctx.thorough { 60 } else { 30 };
@@ -555,6 +584,43 @@ pub fn near_miss_unit(ctx: &Ctx, rng: &mut Rng, o: &mut Out) {
       }
     }
   }
+}
+
+/// The strictness a rule FILE asks for is the strictness its pattern gets: `pattern: {context,
+/// [selector], strictness: L}` loaded by the real rule loader carries `L` (and `smart` without the
+/// key), in several languages — the model is handed the strictness the implementation parsed, so
+/// this conversion is checked on its own.
+pub fn yaml_strictness(o: &mut Out) {
+  let samples: [(SupportLang, &str, Option<&str>); 5] = [
+    (SupportLang::JavaScript, "foo(bar)", None),
+    (SupportLang::TypeScript, "class A { a = 1 }", Some("public_field_definition")),
+    (SupportLang::Python, "foo(bar, baz)", None),
+    (SupportLang::Rust, "let a = 1;", None),
+    (SupportLang::Go, "fmt.Println(a)", None),
+  ];
+  let mut cases = 0usize;
+  for (lang, ctx, sel) in samples {
+    for want in ["cst", "smart", "ast", "relaxed", "signature", ""] {
+      let mut p = json!({"context": ctx});
+      if let Some(s) = sel {
+        p["selector"] = json!(s);
+      }
+      if !want.is_empty() {
+        p["strictness"] = json!(want);
+      }
+      let spec = json!({"rule": {"pattern": p}});
+      cases += 1;
+      let got = match super::rules::load_core(&spec, lang) {
+        Ok(core) => crate::ruledump::core_strictness(&core).join(","),
+        Err(e) => format!("load error: {e}"),
+      };
+      let expect = if want.is_empty() { "smart" } else { want };
+      if got != expect {
+        o.oracle("yaml-strictness", false, json!({"fp": format!("pattern object strictness={expect} is loaded as {got}"), "spec": spec, "lang": lang.to_string()}));
+      }
+    }
+  }
+  o.oracle("yaml-strictness", true, json!({"cases": cases}));
 }
 
 pub fn pattern_wf(p: &ast_grep_core::matcher::PatternNode) -> bool {
